@@ -6,6 +6,7 @@ import Pcore.Model.ObjectParams
 import Pcore.Proofs.ObjectAsg
 import Pcore.Proofs.ObjectFuncs
 import Pcore.Proofs.ObjectTyped
+import Pcore.Proofs.ObjectLiskov
 import Pcore.Generated.ObjectSchema
 import Mathlib.Data.List.Perm.Subperm
 /-!
@@ -100,6 +101,9 @@ Full statement / proved / missing
 * `C17_asg_sound`      — proved: the assignability of the override check (`asg`, the model of GuardedIsAssignable on the alphabet) is
                          sound for `inst`; `C17_override_sound`: in every accepted definition an overriding attribute admits
                          only values the overridden declaration admits (inheritance coheres attribute by attribute).
+* `C17_liskov_attributes` — proved, along the WHOLE chain: for every type of an accepted list of definitions and every ancestor
+                         (any depth), each attribute of the ancestor is by name an attribute of the subtype, and the
+                         subtype's declaration admits only values the ancestor's admits (`C17_chain_env`: the invariant).
 * the attribute-type alphabet is Integer, String, Boolean, Float, Any, Undef, Optional[T], NotUndef[T], Variant[A,B], Array[T]
   (`inst`, `asg`, `tyInit` tied to pcore by the ops `tinst` / `asg` on every pair of 85 type expressions).
 * member functions / interfaces — inside the model (Model/ObjectFuncs: `isInterface`, `allFuncs`, `memberFn`, `implements`,
@@ -868,6 +872,36 @@ theorem C17_assignable_closure {ds : List Def} {env : List OType} (h : defineAll
     isAssignable ti tj = true ↔ Relation.ReflTransGen (parentRel ds) i j := by
   have hg : GoodEnv ds env := by simpa using defineAll_good goodEnv_nil h
   exact isAssignable_closure hg hi j tj hj
+
+/-- every type of an accepted list of definitions satisfies the chain invariant (distinct names at every level, every
+    override admits only what it overrides admits) -/
+theorem C17_chain_env {env0 env : List OType} {ds : List Def} (h0 : ∀ t ∈ env0, ChainOK t)
+    (hds : ∀ d ∈ ds, DefShape d) (h : defineAll env0 ds = .ok env) : ∀ t ∈ env, ChainOK t := by
+  induction ds generalizing env0 with
+  | nil => simp [defineAll] at h; subst h; exact h0
+  | cons d ds ih =>
+    unfold defineAll at h
+    cases hd : define env0 d with
+    | error c => simp [hd] at h
+    | ok t =>
+      simp only [hd] at h
+      apply ih (env0 := env0 ++ [t]) _ (fun d' hd' => hds d' (by simp [hd'])) h
+      intro t' ht'
+      simp only [List.mem_append, List.mem_singleton] at ht'
+      rcases ht' with ht' | ht'
+      · exact h0 t' ht'
+      · subst ht'
+        exact define_chainOK h0 (hds d (by simp)).names (hds d (by simp)).constNames hd
+
+/-- INHERITANCE COHERES ATTRIBUTE BY ATTRIBUTE, along the whole chain: for every type `t` of an accepted list of definitions
+    and every ancestor `p` of `t` (any depth), every attribute of `p` is — by name — an attribute of `t` (the inherited one,
+    or the one that overrides it, possibly several levels down), and every value `t`'s declaration of it admits, `p`'s
+    declaration admits.  An instance of a subtype, read through ANY ancestor's declarations, is well-typed. -/
+theorem C17_liskov_attributes {ds : List Def} {env : List OType} (h : defineAll [] ds = .ok env)
+    (hds : ∀ d ∈ ds, DefShape d) {t p : OType} (ht : t ∈ env) (hp : p <:+ t) :
+    ∀ a ∈ eachAttribute p, ∃ a' ∈ eachAttribute t, a'.name = a.name ∧ ∀ v, inst a'.ty v = true → inst a.ty v = true := by
+  obtain ⟨pre, rfl⟩ := hp
+  exact chain_sound pre (C17_chain_env (env0 := []) (by simp) hds h _ ht)
 
 /-! ### member functions and INTERFACES (Model/ObjectFuncs) -/
 
@@ -1736,6 +1770,13 @@ example : ∃ o', newNamed sampleT2 (initHash { typ := sampleT2, values := [.int
     (t := sampleT2) (by decide) (.hash "")).2 { typ := sampleT2, values := [.int 1, .bool false] }
     (Or.inr ⟨[("c", .bool false), ("a", .int 1)], .hash "", by decide⟩)
   exact ⟨o', h1, h2⟩
+
+/-- hypotheses of `C17_liskov_attributes`: the sibling branch of the sample overrides the root's required `a : Integer` by
+    `a : Integer` with a default; the root is an ancestor; the theorem hands back the overriding attribute -/
+example : ∃ a' ∈ eachAttribute sampleT3, a'.name = "a" ∧ ∀ v, inst a'.ty v = true → inst Ty.int v = true := by
+  have h := C17_liskov_attributes (rfl : defineAll [] sampleDefs = .ok sampleEnv) sampleShape (t := sampleT3) (p := sampleT0)
+    (by decide) ⟨sampleT3.take 1, rfl⟩ { name := "a", ty := .int, kind := .normal, value := none } (by decide)
+  exact h
 
 /-- hypotheses of `C17_valid_named`: the types of the sample hold well-typed defaults; a named construction on the grand-child -/
 example : TypeTyped sampleT2 :=
